@@ -228,6 +228,16 @@ def run(ctx):
             # the limit test is a path condition of the acceptance (`if ...: continue` or an enclosing `if`)
             conds = [(t_, p_) for t_, p_ in rules.path_conditions(par, app, upto=accept) if max_size and max_size in astx.names_in(sc.resolve(t_, keep=[c, max_size]))]
             elsewhere = [n for n in astx.walk_fn(fn.node) if isinstance(n, ast.Name) and n.id == max_size and not par.inside(n, accept)] if max_size else []
+            # the default of the limit means "no limit": with the guard `limit > 0` that is 0 (or None / a negative number)
+            a_ = fn.node.args
+            pos_ = a_.posonlyargs + a_.args
+            dflt_ = {p_.arg: d_ for p_, d_ in zip(pos_[len(pos_) - len(a_.defaults):], a_.defaults)}
+            dflt_.update({p_.arg: d_ for p_, d_ in zip(a_.kwonlyargs, a_.kw_defaults) if d_ is not None})
+            if max_size and max_size in dflt_:
+                dv_ = astx.const_value(dflt_[max_size])
+                if isinstance(dv_, (int, float)) and not isinstance(dv_, bool) and dv_ > 0:
+                    o.violated(fn, dflt_[max_size], f"the default of `{max_size}` is {dv_!r}: a plain MPCC(G) now discards every clique larger than that (with 1: every clique with an edge), "
+                                                    "instead of covering with all sizes")
             if not max_size:
                 o.undecided("no size limit parameter", fn)
             elif not conds and elsewhere:
@@ -342,7 +352,44 @@ def run(ctx):
                         elif isinstance(t, ast.Call) and txt(t.func) == "any" and comps and neg and isinstance(comps[0].elt, ast.UnaryOp):
                             o.holds(fn, guard, "accepted iff not any(not g.has_edge(..) ...)")
                         else:
-                            o.undecided(f"acceptance guard `{txt(gi[0])}` not recognised", fn, guard)
+                            # evaluate the guard over the two facts that matter: ANY pair still free, ALL pairs still free
+                            def _ev(x, env):
+                                if isinstance(x, ast.UnaryOp) and isinstance(x.op, ast.Not):
+                                    v_ = _ev(x.operand, env)
+                                    return None if v_ is None else (not v_)
+                                if isinstance(x, ast.BoolOp):
+                                    vs_ = [_ev(v_, env) for v_ in x.values]
+                                    if any(v_ is None for v_ in vs_):
+                                        return None
+                                    return all(vs_) if isinstance(x.op, ast.And) else any(vs_)
+                                if isinstance(x, ast.Call) and txt(x.func) in ("any", "all") and len(x.args) == 1 and isinstance(x.args[0], (ast.GeneratorExp, ast.ListComp)):
+                                    e_ = x.args[0].elt
+                                    inv_ = False
+                                    while isinstance(e_, ast.UnaryOp) and isinstance(e_.op, ast.Not):
+                                        inv_, e_ = not inv_, e_.operand
+                                    if isinstance(e_, ast.Call) and isinstance(e_.func, ast.Attribute) and e_.func.attr == "has_edge":
+                                        if txt(x.func) == "any":
+                                            return (not env["ALL"]) if inv_ else env["ANY"]      # any(not has) = not ALL ; any(has) = ANY
+                                        return (not env["ANY"]) if inv_ else env["ALL"]          # all(not has) = not ANY ; all(has) = ALL
+                                    return None
+                                if isinstance(x, ast.Name):
+                                    return True           # `edges` / `pairs`: a non-empty collection for every clique with an edge
+                                return None
+                            verdicts = {}
+                            for name_, env_ in (("all free", {"ANY": True, "ALL": True}), ("some free, some taken", {"ANY": True, "ALL": False}), ("none free", {"ANY": False, "ALL": False})):
+                                v_ = _ev(gi[0], env_)
+                                verdicts[name_] = None if v_ is None else (v_ == gi[1])        # is the acceptance reached?
+                            if None in verdicts.values():
+                                o.undecided(f"acceptance guard `{txt(gi[0])}` not recognised", fn, guard)
+                            elif verdicts == {"all free": True, "some free, some taken": False, "none free": False}:
+                                o.holds(fn, guard, f"accepted iff every pair of the clique is still free (`{txt(gi[0])[:60]}`)")
+                            elif verdicts["some free, some taken"]:
+                                o.violated(fn, guard, f"`{txt(gi[0])[:70]}` accepts a clique of which only SOME pairs are still free: it overlaps an accepted clique, the shared edge is "
+                                                      "relabelled and the earlier label no longer covers all pairs of its clique", shape_free=True)
+                            elif not verdicts["all free"]:
+                                o.violated(fn, guard, f"`{txt(gi[0])[:70]}` rejects a clique all of whose pairs are free", shape_free=True)
+                            else:
+                                o.undecided(f"acceptance guard `{txt(gi[0])}` not recognised", fn, guard)
 
     with ctx.obligation("C10.6", "labels: f'{len(c)}-{c}-{ID}' on every pair of every accepted clique; one fresh id per clique", floor=3) as o:
         stores = [n for n in astx.walk_fn(fn.node) if isinstance(n, ast.Assign) and isinstance(n.targets[0], ast.Subscript) and isinstance(n.targets[0].slice, ast.Constant)
